@@ -37,7 +37,7 @@ TRUSTED_BASE = [
     "OCaml driver ocaml/driver.ml (hex<->Z, line protocol), OCaml 4.13.1",
     "Rust harness harness/src/*.rs (catch_unwind, line protocol) and rustc semantics of primitive integer operations",
     "hooks: #[cfg(fpdec_verif)] verif_hooks in fpdec-core (repo commit fbb9d73): one-line forwarders to the private kernels",
-    "translator tools/rs2v.py (Rust subset -> Gallina, 27 integer kernels of fpdec-core -> coq/gen/GenCore.v, regenerated on every run; "
+    "translator tools/rs2v.py (Rust subset -> Gallina: 27 integer kernels of fpdec-core -> coq/gen/GenCore.v, 39 Decimal-level functions of src/ -> coq/gen/GenDec.v, regenerated on every run; "
     "syntax-directed, conventions listed in its header; assumes every variable holds a value in the range of its Rust type); "
     "the tie lemmas coq/proofs/GenTie*.v prove each translated function equal to the hand-written model",
     "structural tie: tools/fingerprint.py + tools/source_fingerprints.json (item-level digests of the Rust text the model was written from; updated by hand only)",
@@ -153,7 +153,7 @@ def build_coq(pid, tier="quick"):
     res["consts"] = out.strip().split("\n")[-1] if out.strip() else ""
     # the translator: regenerate coq/gen/GenCore.v from /repo's current source (rewritten only when it changes)
     rc, out = sh("python3 %s/rs2v.py" % HERE, timeout=600)
-    res["translator"] = out.strip().split("\n")[0] if out.strip() else "rs2v did not run"
+    res["translator"] = out.strip().split("\n")[-1] if out.strip() else "rs2v did not run"
     if not os.path.exists(os.path.join(COQ, "Makefile")) or \
             os.path.getmtime(os.path.join(COQ, "Makefile")) < os.path.getmtime(os.path.join(COQ, "_CoqProject")):
         sh("coq_makefile -f _CoqProject -o Makefile", cwd=COQ)
@@ -285,6 +285,16 @@ TIE_GROUPS = {
     "GenTieWide": ["u128_hi", "u128_lo", "u128_msb", "u128_mul_u128", "u256_idiv_u64", "u256_idiv_u128_special",
                    "u256_idiv_u128", "i128_shifted_div_mod_floor", "i256_div_mod_floor"],
     "GenTieRound": ["round_quot", "i128_div_rounded", "i128_shifted_div_rounded", "i128_mul_div_ten_pow_rounded"],
+    # the Decimal level (crate fpdec, src/): keys are <impl or trait>::<method> or the name of a free function
+    "GenTieDecRound": ["Round::round", "Round::checked_round"],
+    "GenTieDecMul": ["checked_mul_rounded", "Mul::mul", "MulRounded::mul_rounded", "CheckedMul::checked_mul"],
+    "GenTieDecDiv": ["normalize", "checked_div_rounded", "Div::div", "CheckedDiv::checked_div", "DivRounded::div_rounded"],
+    "GenTieDecUn": ["Neg::neg", "Decimal::abs", "Decimal::floor", "Decimal::ceil", "Decimal::trunc", "Decimal::fract",
+                    "DivModInt::divmod", "DivModInt::div_floor", "DivModInt::div_ceil", "coeff_or_panic",
+                    "Add::add", "Sub::sub", "CheckedAdd::checked_add", "CheckedSub::checked_sub"],
+    "GenTieDecCmp": ["PartialEq::eq", "PartialOrd::partial_cmp", "Ord::cmp"],
+    "GenTieDecMag": ["Decimal::magnitude"],
+    "GenTieDecRem": ["rem", "Rem::rem", "CheckedRem::checked_rem"],
 }
 
 
@@ -293,27 +303,41 @@ def tie_status():
     try:
         st = json.load(open(os.path.join(COQ, "gen", "gencore_status.json")))
     except (OSError, ValueError):
-        return set(), dict(error="no translator status")
+        return (set(), {}), dict(error="no translator status")
     targets = " ".join("proofs/%s.vo" % g for g in TIE_GROUPS)
     sh("timeout 900 make -k -j%d %s 2>&1" % (NPROC, targets), cwd=COQ, timeout=1000)
     ok_groups, proved = [], set()
+    dec = st.get("dec", {})
+    translated = set(st.get("translated", [])) | set(dec.get("translated", []))
     for g, fns in TIE_GROUPS.items():
         rc, _ = sh("make -q proofs/%s.vo" % g, cwd=COQ)
         if rc == 0 and os.path.exists(os.path.join(COQ, "proofs", g + ".vo")):
             ok_groups.append(g)
-            proved |= {f for f in fns if f in st.get("translated", []) or f == "POWERS_OF_10"}
-    return proved, dict(translated=st.get("translated", []), untranslatable=st.get("failed", {}),
-                        missing=st.get("missing", []), tie_files_checked=ok_groups,
-                        tie_files_broken=[g for g in TIE_GROUPS if g not in ok_groups])
+            proved |= {f for f in fns if f in translated or f == "POWERS_OF_10"}
+    # an impl block of src/ is covered when every function in it is translated and proved and it declares no constants
+    impl_ok = {}
+    for f, blocks in dec.get("impl_blocks", {}).items():
+        for impl, b in blocks.items():
+            impl_ok[(f, impl)] = bool(b["fns"]) and b["consts"] == 0 and all(k in proved for k in b["fns"])
+    untr = dict(st.get("failed", {})); untr.update(dec.get("failed", {}))
+    return (proved, impl_ok), dict(translated=sorted(translated), untranslatable=untr,
+                                   missing=st.get("missing", []) + dec.get("missing", []), tie_files_checked=ok_groups,
+                                   tie_files_broken=[g for g in TIE_GROUPS if g not in ok_groups])
 
 
 def excuse_translated(changed, proved):
     """a changed Rust item whose regenerated translation is proved equal to the model needs no alarm"""
     keep, excused = [], []
+    proved, impl_ok = proved if isinstance(proved, tuple) else (proved, {})
     for it in changed:
-        key = it.split(" :: ", 1)[1]
+        f, key = it.split(" :: ", 1)
         m = re.search(r"\bfn (\w+)", key) or re.search(r"\bconst (\w+)", key)
-        if it.startswith("fpdec-core/src/") and m and m.group(1) in proved:
+        mi = re.match(r"^impl (?:(\w+)(?:<(?:Self|Decimal)>)? for )?(Decimal|i128)(?: #\d+)?$", key)
+        if f.startswith("fpdec-core/src/") and m and m.group(1) in proved:
+            excused.append(it)
+        elif f.startswith("src/") and m and not key.startswith("impl") and m.group(1) in proved:
+            excused.append(it)
+        elif f.startswith("src/") and mi and impl_ok.get((f, mi.group(1) or mi.group(2))):
             excused.append(it)
         else:
             keep.append(it)
